@@ -1,9 +1,149 @@
+(* C38 — registry path parsing recovers exactly the components it was built from.
+   Statements only; every proof is `exact <lemma of Proof/C38*.v>`.
+
+   Model/C38.v: `build k` is the storage path docker/distribution builds for kind k (revision link,
+   tag current/index link, layer link, blob data, upload data/startedat/hashstates ...);
+   `parse_path` and the `get_*` functions are paths.go's ParsePath and Get* extractors, i.e. the
+   pattern trees below run by a backtracking matcher with Go's preference order; `expected k` is what
+   the property demands of all eight functions on `build k`.  `pk_ok` is weaker than the documented
+   grammars (`pk_valid`: docker repository / tag names, 64 lower-case hex digits, uuid text).
+   The `sh_*` predicates (Proof/C38_shapes.v) spell out "follows the layout". *)
 From Coq Require Import List NArith Bool.
 From K.Gen Require Import C38_consts.
 From K.Model Require Import C38.
-From K.Proof Require C38.
+From K.Proof Require C38 C38_shapes C38_engine C38_segs C38_repo.
 Import ListNotations.
+Import K.Proof.C38_shapes K.Proof.C38_engine K.Proof.C38.
 
+(* the twelve pattern trees the theorems are about print to exactly the regular-expression
+   literals found in paths.go today (and lie in the fragment the printer reads back
+   unambiguously); the root of the layout is paths.go's _repositoryRoot *)
 Theorem C38_patterns_are_source : table_ok (pattern_table ast_get_repo) = true.
 Proof. exact Proof.C38.patterns_are_source. Qed.
 Print Assumptions C38_patterns_are_source.
+Theorem C38_root_is_source : repository_root = v2_root ++ sl s_repositories.
+Proof. exact Proof.C38.roots_are_source. Qed.
+Print Assumptions C38_root_is_source.
+
+(* the matcher is sound and complete for the declarative reading D of a pattern; when all
+   declarative matches of a text agree on the captures the matcher returns them *)
+Theorem C38_matcher_sound : forall r p c, exec r p = Some c -> exists s1 s2, p = s1 ++ s2 /\ D r s1 s2 c.
+Proof. exact Proof.C38_engine.exec_sound. Qed.
+Print Assumptions C38_matcher_sound.
+Theorem C38_matcher_complete : forall r s1 s2 c, D r s1 s2 c -> exec r (s1 ++ s2) <> None.
+Proof. exact Proof.C38_engine.exec_complete. Qed.
+Print Assumptions C38_matcher_complete.
+
+(* clause 1: classification returns the kind of path that was built *)
+Theorem C38_classify : forall k, pk_ok k = true -> parse_path (build k) = o_parse (expected k).
+Proof. exact Proof.C38.parse_built. Qed.
+Print Assumptions C38_classify.
+
+(* clause 2: the extractors return exactly the components (and nothing for a kind that does
+   not carry the component) *)
+Theorem C38_extract_repo : forall k, pk_ok k = true -> get_repo (build k) = o_repo (expected k).
+Proof. exact Proof.C38.repo_built. Qed.
+Print Assumptions C38_extract_repo.
+Theorem C38_extract_tag : forall k, pk_ok k = true -> get_manifest_tag (build k) = o_tag (expected k).
+Proof. exact Proof.C38.tag_built. Qed.
+Print Assumptions C38_extract_tag.
+Theorem C38_extract_blob : forall k, pk_ok k = true -> get_blob_digest (build k) = o_blob (expected k).
+Proof. exact Proof.C38.blob_built. Qed.
+Print Assumptions C38_extract_blob.
+Theorem C38_extract_layer : forall k, pk_ok k = true -> get_layer_digest (build k) = o_layer (expected k).
+Proof. exact Proof.C38.layer_built. Qed.
+Print Assumptions C38_extract_layer.
+Theorem C38_extract_manifest : forall k, pk_ok k = true -> get_manifest_digest (build k) = o_manifest (expected k).
+Proof. exact Proof.C38.manifest_built. Qed.
+Print Assumptions C38_extract_manifest.
+Theorem C38_extract_uuid : forall k, pk_ok k = true -> get_upload_uuid (build k) = o_uuid (expected k).
+Proof. exact Proof.C38.uuid_built. Qed.
+Print Assumptions C38_extract_uuid.
+Theorem C38_extract_algo_offset : forall k, pk_ok k = true -> get_upload_algo_offset (build k) = o_algo (expected k).
+Proof. exact Proof.C38.algo_built. Qed.
+Print Assumptions C38_extract_algo_offset.
+
+(* clauses 1+2 for the documented grammars, all eight functions at once *)
+Theorem C38_valid_names : forall k, pk_valid k = true -> observe (build k) = expected k.
+Proof. exact Proof.C38.observe_valid. Qed.
+Print Assumptions C38_valid_names.
+Theorem C38_valid_implies_ok : forall k, pk_valid k = true -> pk_ok k = true.
+Proof. exact Proof.C38_segs.pk_valid_ok. Qed.
+Print Assumptions C38_valid_implies_ok.
+
+(* GetRepo for every path of the form <root>/repositories/<repo>/<keyword>..., whatever follows
+   (the preference order of the lazy quantifiers is what makes this hold) *)
+Theorem C38_extract_repo_any_suffix : forall r kw rest, repo_ok r = true ->
+  kw = s_manifests \/ kw = s_layers \/ kw = s_uploads ->
+  exec ast_get_repo (repo_dir r ++ SL :: kw ++ rest) = Some [r].
+Proof. exact Proof.C38_repo.get_repo_built. Qed.
+Print Assumptions C38_extract_repo_any_suffix.
+
+(* clause 3: paths that do not follow the layout are rejected — whatever is accepted has the
+   layout's shape, with the returned component at its place *)
+Theorem C38_rejects_parse : forall p ty st, parse_path p = Some (ty, st) -> follows_layout ty st p.
+Proof. exact Proof.C38.parse_rejects. Qed.
+Print Assumptions C38_rejects_parse.
+Theorem C38_rejects_repo : forall p r, get_repo p = Some r -> exists t1 t2, p = t1 ++ t2 /\ sh_repo t1 [r].
+Proof. exact Proof.C38.repo_rejects. Qed.
+Print Assumptions C38_rejects_repo.
+Theorem C38_rejects_tag : forall p t cur, get_manifest_tag p = Some (t, cur) ->
+  exists x, sh_tag p [] [t; x] /\ cur = str_eqb x s_current.
+Proof. exact Proof.C38.tag_rejects. Qed.
+Print Assumptions C38_rejects_tag.
+Theorem C38_rejects_blob : forall p h, get_blob_digest p = Some h -> sh_blob p [] h /\ valid_sha256_hex h = true.
+Proof. exact Proof.C38.blob_rejects. Qed.
+Print Assumptions C38_rejects_blob.
+Theorem C38_rejects_layer : forall p h, get_layer_digest p = Some h -> (exists x, sh_layer p [] h x) /\ valid_sha256_hex h = true.
+Proof. exact Proof.C38.layer_rejects. Qed.
+Print Assumptions C38_rejects_layer.
+Theorem C38_rejects_manifest : forall p h, get_manifest_digest p = Some h -> sh_mdigest p [] [h] /\ valid_sha256_hex h = true.
+Proof. exact Proof.C38.manifest_rejects. Qed.
+Print Assumptions C38_rejects_manifest.
+Theorem C38_rejects_uuid : forall p u, get_upload_uuid p = Some u -> sh_uuid p [] [u].
+Proof. exact Proof.C38.uuid_rejects. Qed.
+Print Assumptions C38_rejects_uuid.
+Theorem C38_rejects_algo_offset : forall p a o, get_upload_algo_offset p = Some (a, o) -> sh_algo p [] [a; o].
+Proof. exact Proof.C38.algo_rejects. Qed.
+Print Assumptions C38_rejects_algo_offset.
+
+(* executable form used on observed cases *)
+Theorem C38_check_sound : forall path built, C38_check path built (observe path) = true.
+Proof. exact Proof.C38.check_sound. Qed.
+Print Assumptions C38_check_sound.
+
+(* the pattern as shipped before fixes/C38_getrepo_lazy.patch (greedy quantifiers) returns a wrong
+   repository for valid names: "foo/repositories/bar" -> "bar", tag "_layers" -> "foo/_manifests/tags" *)
+Theorem C38_repo_component_refuted :
+  pk_valid w_repo_component = true
+  /\ get_repo_prefix (build w_repo_component) = Some [98; 97; 114]%N
+  /\ get_repo_prefix (build w_repo_component) <> o_repo (expected w_repo_component).
+Proof. exact Proof.C38.shipped_repo_component_refuted. Qed.
+Print Assumptions C38_repo_component_refuted.
+Theorem C38_keyword_tag_refuted :
+  pk_valid w_keyword_tag = true
+  /\ get_repo_prefix (build w_keyword_tag) = Some ([102; 111; 111]%N ++ sl s_manifests ++ sl s_tags)
+  /\ get_repo_prefix (build w_keyword_tag) <> o_repo (expected w_keyword_tag).
+Proof. exact Proof.C38.shipped_keyword_tag_refuted. Qed.
+Print Assumptions C38_keyword_tag_refuted.
+
+(* non-vacuity: valid components of every kind (repository with a `repositories` component, tags
+   "_uploads" / "_manifests"), on which all eight functions answer as the property demands *)
+Example C38_nonvacuous :
+  forallb pk_valid ex_kinds = true
+  /\ forallb (fun k => obs_eqb (observe (build k)) (expected k)) ex_kinds = true
+  /\ length ex_kinds = 12.
+Proof. vm_compute. repeat split; reflexivity. Qed.
+(* non-vacuity of the rejection theorems: each function accepts some path *)
+Example C38_nonvacuous_accepts :
+  parse_path (build (KBlob ex_hex)) = Some (pt_blobs, st_data)
+  /\ get_upload_algo_offset (build (KUploadHashState ex_repo ex_uuid s_sha256 [52; 50]%N)) = Some (s_sha256, [52; 50]%N)
+  /\ get_manifest_tag (build (KTagIndex ex_repo s_manifests ex_hex)) = Some (s_manifests, false).
+Proof. vm_compute. repeat split; reflexivity. Qed.
+(* ... and rejects near misses *)
+Example C38_rejects_examples :
+  parse_path (v2_root ++ sl s_manifests ++ sl s_tags ++ sl s_link) = None            (* .../_manifests/tags/link: nothing between *)
+  /\ get_blob_digest (v2_root ++ sl s_blobs ++ sl s_sha256 ++ sl [97; 97; 97]%N ++ sl ex_hex ++ sl s_data) = None  (* 3-char shard *)
+  /\ get_upload_uuid (sl s_uploads ++ sl ex_uuid ++ sl s_data) = None    (* empty prefix *)
+  /\ get_repo (build (KBlob ex_hex)) = None.
+Proof. vm_compute. repeat split; reflexivity. Qed.
